@@ -12,7 +12,7 @@ PROP = 'C18'
 # a record as redo prints it: may be glued to the end of an unterminated line of the previous writer
 REC = re.compile(r'@@REDO:([^:@\n]*):(-?\d+):(\d+(?:\.\d+)?)@@ (.*)$')
 SAFE = 'abcdefghijklmnopqrstuvwxyzABCDEFGHIJKLMNOPQRSTUVWXYZ0123456789 _-+=.,:;!?()[]{}<>/|~^&*%$"`\tüé中'
-LOOKALIKES = ['@@REDO:', '@@REDO:do:x:1@@ t', 'mid @@REDO in line', '@@REDO:done:12:zz@@ 0 t', '@@ REDO:do:1:1.0@@ t', '@@REDO:do:1@@ t', '@@redo:do:1:1.0@@ t']
+LOOKALIKES = ['@@REDO:done:1:1.0@@ hello', '@@REDO:done:7:2.5@@ not-a-number t', '@@REDO:', '@@REDO:do:x:1@@ t', 'mid @@REDO in line', '@@REDO:done:12:zz@@ 0 t', '@@ REDO:do:1:1.0@@ t', '@@REDO:do:1@@ t', '@@redo:do:1:1.0@@ t']
 
 
 # --------------------------------------------------------------------------- program generation
@@ -212,6 +212,13 @@ def attribute(stream, cwd_rel=''):
             else:
                 per.setdefault(cur, []).append(ln[:i])
         kind, pid, ts, text = mm.group(1), int(mm.group(2)), float(mm.group(3)), mm.group(4)
+        if kind == 'done' and not re.match(r'^-?\d+ ', text + ' '):
+            # has the shape of a record, but no "done" record redo writes looks like this (no exit status): a line of the script
+            if cur is None:
+                problems.append('text outside any target: %r' % ln[:80])
+            else:
+                per.setdefault(cur, []).append(ln[i:])
+            continue
         if kind in ('do', 'resumed') and text:
             text = os.path.normpath(text)       # the viewer prints "resumed sub/../mid" but "do mid"
         recs.append((kind, text))
